@@ -1,18 +1,50 @@
 (* C13 -- the transaction interpreter agrees with real script execution.  Statements only.
 
-   Model: Ms/InterpModel.v ([interp]: the work-list evaluator of Iter::iter_next with the
-   final-stack rule; [interp_rec]/[ieval]: the recursive form).  Specification: Script/Exec.v
-   ([exec], [accepts]) on the ENCODED miniscript (Ms/Ast.v [enc]), Script/ExecTrace.v
-   ([exec_tr], [checks]: the conditions the executed path verified).
+   Model (Ms/InterpModel.v): [interp] is the faithful iterative form of Iter::iter_next (the
+   NodeEvaluationState work-list, explicit fuel, panic sites as outcomes, the final-stack
+   rule) over the abstract stack of stack.rs; [interp_rec]/[ieval] is the recursive form.
+   Specification: Script/Exec.v ([exec], [accepts]) on the ENCODED miniscript ([enc], Ms/Ast.v);
+   Script/ExecTrace.v ([exec_tr], [checks]): the conditions the executed path verified.
 
-   FULL STATEMENT (interp_sound):
-     forall e ke kp m t items cs, type_of m = ROk t -> c_base (t_corr t) = BB -> wf ... ->
-       interp e ke kp m (astack_of_items items) = IAccept cs ->
-       accepts e (enc ke m) (rev items) = true.
-   It is FALSE for the code that exists: interp_sound_refuted (two independent witnesses:
-   `after` under a final nSequence, `older` under transaction version 1). *)
-From Verif Require Import Exec Ser Ast Types TypeCheck InterpModel InterpRefuted.
+   FULL STATEMENTS
+     interp_sound    : type_of m = ROk t -> base t = B ->
+                       interp e ke kp m (astack_of_items items) = IAccept cs ->
+                       accepts e (enc ke m) (rev items) = true
+                       -- FALSE for the code that exists: interp_sound_refuted (`after` under a final
+                          nSequence, DESIGN 10-h) and interp_sound_refuted_version (`older` under
+                          transaction version 1).  Proved with the side conditions "sequence not final"
+                          and "version >= 2": interp_sound_partial.
+     constraints_exact : ... -> map check_of cs = checks (trace of exec_tr (enc ke m) (rev items))
+     interp_policy     : ... -> the reported constraints satisfy the lifted policy of m
+     interp_complete   : sane m -> every (scriptSig, witness) get_satisfaction returns is accepted
+   What is proved here:
+     * interp_is_recursive: the work-list evaluator equals the recursive evaluator on EVERY
+       miniscript and stack; [steps m] + 1 iterations always suffice (no INoFuel).
+     * interp_sound_partial: the full statement of interp_sound under the two side conditions,
+       for every nesting of every fragment except thresh and the multisig leaves ([icover]);
+       the arithmetic facts about script numbers are the same hypotheses as in C01.
+     * the two refutations.
+   constraints_exact, interp_policy, interp_complete and the uncovered fragments are checked per
+   run by the oracle (tools/props/c13.py), not proved. *)
+From Verif Require Import Exec Ser Ast Types TypeCheck InterpModel InterpRefine InterpSound InterpRefuted InterpMain.
 Local Open Scope N_scope.
+
+Theorem interp_is_recursive :
+  forall (e : env) (ke : keyenv) (kp : bytes -> bool) (m : ms) (st : astack),
+    interp e ke kp m st = interp_rec e ke kp m st.
+Proof. exact interp_eq_rec. Qed.
+Print Assumptions interp_is_recursive.
+
+Theorem interp_sound_partial :
+  forall (e : env) (ke : keyenv) (kp : bytes -> bool),
+    num_facts -> keys_ok e ke kp ->
+    e_sequence e <> SEQ_FINAL -> 2 <= e_txversion e ->
+    forall (m : ms) (t : ty) (items : list bytes) (cs : list constr),
+      type_of m = ROk t -> c_base (t_corr t) = BB -> iwf m -> icover m -> items_small items ->
+      interp e ke kp m (astack_of_items items) = IAccept cs ->
+      accepts e (enc ke m) (rev items) = true.
+Proof. exact interp_sound_sidecond. Qed.
+Print Assumptions interp_sound_partial.
 
 (* finding (DESIGN 10-h): evaluate_after ignores BIP65's "nSequence must not be final" *)
 Theorem interp_sound_refuted :
@@ -33,3 +65,13 @@ Theorem interp_sound_refuted_version :
     e_sequence e <> SEQ_FINAL /\ e_txversion e = 1.
 Proof. exact refuted_version. Qed.
 Print Assumptions interp_sound_refuted_version.
+
+(* non-vacuity of interp_sound_partial's hypotheses: an environment, a well-typed covered
+   miniscript and a stack on which the interpreter accepts *)
+Example C13_nonvacuous :
+  keys_ok (toy_env 100 4294967294 2) toy_ke toy_kp /\
+  e_sequence (toy_env 100 4294967294 2) <> SEQ_FINAL /\ 2 <= e_txversion (toy_env 100 4294967294 2) /\
+  (exists t, type_of m_after = ROk t /\ c_base (t_corr t) = BB) /\ iwf m_after /\ icover m_after /\
+  items_small [a_sig] /\
+  interp (toy_env 100 4294967294 2) toy_ke toy_kp m_after (astack_of_items [a_sig]) = IAccept [CsPk [2; 0] a_sig; CsAfter 10].
+Proof. exact sidecond_nonvacuous. Qed.
